@@ -76,10 +76,24 @@ def vecs(X):
 def gen_matrix(rng, nmax=40):
     n = rng.choice([0, 1, 2, 3, 5, 8, 13, 21, rng.randint(0, nmax)])
     d = rng.randint(1, 5)
-    style = rng.choice(["grid2", "grid3", "grid5", "float", "mixed", "dupes"])
+    style = rng.choice(["grid2", "grid3", "grid5", "float", "mixed", "dupes", "huge", "inf"])
     rows = []
+    # 'huge' / 'inf': a coordinate shared by several points that is huge (or infinite) next to small differences
+    # in the other coordinates: sums and differences of whole rows lose the small part in binary64
+    big = [rng.choice([3e17, -3e17, 2.0 ** 60, 1e300, -1e300, 9007199254740993.0]) for _ in range(d)]
     for _ in range(n):
-        if style.startswith("grid"):
+        if style in ("huge", "inf"):
+            row = []
+            for k in range(d):
+                r = rng.random()
+                if r < 0.45:
+                    row.append(big[k] if style == "huge" else rng.choice([float("inf"), float("inf"), float("-inf"), big[k]]))
+                elif r < 0.8:
+                    row.append(0.1 * rng.randint(0, 4))
+                else:
+                    row.append(float(rng.randint(-2, 2)))
+            rows.append(row)
+        elif style.startswith("grid"):
             g = int(style[4:])
             rows.append([float(rng.randint(0, g - 1)) for _ in range(d)])
         elif style == "float":
@@ -143,6 +157,9 @@ def run(ctx, replay=None):
             ctx.violation("property", "pareto_efficient marks %s but brute force says %s" % (mask, truth),
                           case=dict(kind="mask", X=X.tolist(), shape=list(X.shape)),
                           signature=dict(function="pareto_efficient", n=int(X.shape[0])))
+        if not np.all(np.isfinite(X)):
+            ctx.h("mask_nonfinite_python_checker_only", "n")
+            continue
         cases.append("(%s, %s)" % (vecs(X), lst([blit(b) for b in mask])))
         meta.append(dict(kind="mask", X=X.tolist(), shape=list(X.shape), impl=mask))
     if cases:
@@ -186,6 +203,9 @@ def run(ctx, replay=None):
             ctx.violation("property", "nondominated_sort output %s is not layer-consistent (layers %s)" % (flat, truth),
                           case=dict(kind="sort", X=X.tolist(), shape=list(X.shape), dim=dim, max_items=mx),
                           signature=dict(function="nondominated_sort"))
+        if not np.all(np.isfinite(X)):
+            ctx.h("sort_nonfinite_python_checker_only", "n")
+            continue
         scases.append("(%s, %s, %s, %s)" % (vecs(X), optlit(dim, natlit), optlit(mx, natlit),
                                             lst([lst([natlit(i) for i in l]) for l in layers])))
         smeta.append(dict(kind="sort", X=X.tolist(), shape=list(X.shape), dim=dim, max_items=mx, impl=layers))
@@ -241,7 +261,9 @@ def gen_moasha_case(rng):
     # event schedule: interleaving of per-trial consecutive reports
     cursors = {t: 0 for t in range(ntrials)}
     assign = {t: rng.randrange(brackets) for t in range(ntrials)}
-    grid = rng.choice([3, 5, 100])
+    grid = rng.choice([3, 5, 100, -1])   # -1: one huge coordinate shared by all reports + small differences elsewhere
+    hugecol = rng.randrange(nmet)
+    hugeval = rng.choice([3e17, 2.0 ** 60, 1e300])
     stride_mode = rng.choice([0, 0, 3, 9])
     evs = []
     alive = list(range(ntrials))
@@ -251,7 +273,10 @@ def gen_moasha_case(rng):
         t = rng.choice(alive)
         # consecutive epochs mostly; some trials report with a stride / a late first report (jumping over rung levels)
         cursors[t] += 1 if (stride_mode == 0 or rng.random() < 0.5) else rng.randint(1, stride_mode)
-        vals = [float(rng.randint(0, grid)) if grid < 100 else rng.uniform(0, 1) for _ in range(nmet)]
+        if grid == -1:
+            vals = [hugeval if (k == hugecol and nmet > 1) else 0.1 * rng.randint(0, 5) for k in range(nmet)]
+        else:
+            vals = [float(rng.randint(0, grid)) if grid < 100 else rng.uniform(0, 1) for _ in range(nmet)]
         evs.append((t, cursors[t], vals))
     return dict(metrics=metrics, mode=mode, rf=rf, grace=grace, max_t=max_t, brackets=brackets, prio=prio, max_num_samples=max_num_samples, key_order=key_order,
                 assign={str(k): v for k, v in assign.items()}, evs=evs)
